@@ -596,7 +596,7 @@ func (self *Value) updateByteLen(originLen int, address []int, isPacked bool, re
 		l2 := int(uintptr(self.v) + uintptr(self.l) - uintptr(srcTail))
 
 		// copy three slices into new buffer
-		newBuf := make([]byte, l0+l1+l2)
+		newBuf := make([]byte, l0+l1+l2, l0+l1+l2+1)
 		copy(newBuf[:l0], rt.BytesFrom(self.v, l0, l0))
 		copy(newBuf[l0:l0+l1], newBytes)
 		copy(newBuf[l0+l1:l0+l1+l2], rt.BytesFrom(srcTail, l2, l2))
@@ -1179,7 +1179,7 @@ func (self *Value) SetMany(pathes []PathNode, opts *Options, root *Value, addres
 			// newLen + buf[lenOffset:]
 			l0 := len(newLen)
 			l1 := byteLen
-			newBuf := make([]byte, l0+l1)
+			newBuf := make([]byte, l0+l1, l0+l1+1)
 			copy(newBuf[:l0], newLen)
 			copy(newBuf[l0:], buf[lenOffset:])
 			self.v = rt.GetBytePtr(newBuf)
